@@ -53,6 +53,46 @@ def main():
             good = got == expect
             ok = ok and good
             print(f"{'OK ' if good else 'BAD'} GroupTrace: {what}: {'accepted' if got else 'rejected'}")
+        # table specifications: one corrupted field of one row
+        import random
+        from harness import coordbig, polyeuclid, tables, toy, fields as hfields
+
+        def table(module, rows, files=None, spec="Spec"):
+            d = ctx.tmp / f"st_{module}_{random.randrange(10 ** 9)}"
+            d.mkdir()
+            env = {"TABLE": str(d / "t.ndjson")}
+            tables.write_ndjson(d / "t.ndjson", rows)
+            for k_, v_ in (files or {}).items():
+                tables.write_ndjson(d / f"{k_}.ndjson", v_)
+                env[k_] = str(d / f"{k_}.ndjson")
+            res = ctx.tlc(module, tables.cfg(["RowsOK"], spec=spec), env=env, name=f"selftest_{module}", quiet=True,
+                          eval_as_violation=True)
+            return not res.violations
+        rows = [r for r in coordbig.secp_rows(ctx, random.Random(3)) if not r.get("exc")]
+        for r in rows:
+            r.setdefault("exc", "")
+        bad = copy.deepcopy(rows)
+        k_ = next(i for i, r in enumerate(bad) if r["op"] == "add" and r["r"])
+        bad[k_]["r"][0][0][0] ^= 1                                     # lowest bit of the x-coordinate of one result
+        bad2 = copy.deepcopy(rows)
+        bad2[k_]["w"][0][0] ^= 1                                       # ... of one slope witness
+        for what, t, expect in (("unmodified", rows, True), ("one result coordinate changed by one bit", bad, False),
+                                ("one slope witness changed by one bit", bad2, False)):
+            got = table("CoordBig", t)
+            ok = ok and got == expect
+            print(f"{'OK ' if got == expect else 'BAD'} CoordBig: {what}: {'accepted' if got else 'rejected'}")
+        f = [x for x in hfields.CATALOGUE if x["name"] == "GF7^2"][0]
+        cls = toy.field_classes(7, 2, f["mc"], "ref")
+        prow = []
+        for x in ([3, 4], [1, 6], [5, 0]):
+            res_, st = polyeuclid.record(cls, 2, 7, toy.mk(cls, 2, x))
+            prow.append({"f": 1, "fam": "ref", "x": x, "states": st, "res": toy.proj(res_, 2), "exc": ""})
+        pbad = copy.deepcopy(prow)
+        pbad[0]["states"][1]["lm"][0] = (pbad[0]["states"][1]["lm"][0] + 1) % 7      # one coefficient of one loop state
+        for what, t, expect in (("unmodified", prow, True), ("one coefficient of one recorded loop state changed", pbad, False)):
+            got = table("PolyEuclidTrace", t, files={"FIELDS": [hfields.spec_field(f)]}, spec="TSpec")
+            ok = ok and got == expect
+            print(f"{'OK ' if got == expect else 'BAD'} PolyEuclidTrace: {what}: {'accepted' if got else 'rejected'}")
     finally:
         ctx.cleanup()
     return 0 if ok else 1
